@@ -196,7 +196,8 @@ def _solo_job(k):
     scn, title = k
     out = e3.execute(make(scn, only=title), [])
     if out.deadlock or out.overrun or out.crashed:
-        raise common.HarnessError('solo run of %s/%s failed: %r %r %r' % (scn, title, out.deadlock, out.overrun, out.crashed))
+        # on the unchanged tree every conversation works alone; if it does not, that is what has to be reported
+        return k, ('FAILED', 'deadlock=%r overrun=%r crashed=%r' % (out.deadlock, out.overrun, [(c[0], c[1]) for c in out.crashed]))
     return k, view(out, title)[:2]
 
 
@@ -205,8 +206,9 @@ def solo(scn, title):
     if k not in _SOLO:
         out = e3.execute(make(scn, only=title), [])
         if out.deadlock or out.overrun or out.crashed:
-            raise common.HarnessError('solo run of %s/%s failed: %r %r %r' % (scn, title, out.deadlock, out.overrun, out.crashed))
-        _SOLO[k] = view(out, title)[:2]
+            _SOLO[k] = ('FAILED', 'deadlock=%r overrun=%r crashed=%r' % (out.deadlock, out.overrun, [(c[0], c[1]) for c in out.crashed]))
+        else:
+            _SOLO[k] = view(out, title)[:2]
     return _SOLO[k]
 
 
@@ -230,7 +232,11 @@ def judge(scn, out):
         if failing and spec['fail'][1] == 'disconnect':
             continue
         mine, srv, ids = view(out, title)
-        smine, ssrv = solo(scn, title)
+        ref = solo(scn, title)
+        if ref[0] == 'FAILED':
+            viol.append((sig + ':conversation-fails-alone:%s' % title, 'the conversation of client %s does not even work alone: %s' % (title, ref[1])))
+            continue
+        smine, ssrv = ref
         if mine != smine:
             viol.append((sig + ':client-outcome:%s' % title, 'client %s observed %r, alone it observes %r (schedule %s)' % (title, mine, smine, sched)))
         if srv != ssrv:
